@@ -7,6 +7,7 @@ mod common;
 mod s_c15;
 mod s_rd;
 mod s_wr;
+mod s_tx;
 
 fn dispatch(line: &str) -> String {
     let toks: Vec<&str> = line.split(' ').filter(|t| !t.is_empty()).collect();
@@ -15,6 +16,8 @@ fn dispatch(line: &str) -> String {
         Some("rd") => s_rd::run(&toks[1..]),
         Some("o_rd") => s_rd::oracle(&toks[1..]),
         Some("wr") => s_wr::run(&toks[1..]),
+        Some("tx") => s_tx::run(&toks[1..]),
+        Some("o_tx") => s_tx::oracle(&toks[1..]),
         Some("o_wr") => s_wr::oracle(&toks[1..]),
         Some(s) => format!("HARNESS-ERROR unknown stream {s}"),
         None => String::new(),
